@@ -45,7 +45,12 @@ def opsC06 : Handler := fun st fields =>
     | some row, some args =>
       let o := run c06Kernel (fun p => PyVal.qty ("?" ++ p) "u") (fun r => "altered:" ++ r) (fun _ => "u") row args
       match o with
-      | .raised e => some (st, s!"ok\traised\t{e}")
+      | .raised e =>
+        -- the kernel was reached and raised on every sampled instance: still show the call it was handed
+        match row.calls with
+        | (via, g) :: _ =>
+          some (st, s!"ok\traised\t{if via then "impl" else "public"}\t{renderCall g (forward row.params (fun p => PyVal.qty ("?" ++ p) "u") args)}")
+        | [] => some (st, s!"ok\traised\t{e}")
       | .noKernel => some (st, "ok\tnokernel")
       | .value _ r =>
         let via := match row.calls with | (true, _) :: _ => "impl" | _ => "public"
@@ -54,7 +59,7 @@ def opsC06 : Handler := fun st fields =>
     | _, none => some (st, "bad-args")
   -- the dispatcher on a symbolic call: which branch of `Np.dispatch` answers
   | ["c06.dispatch", f, foreign] =>
-    let row : Row := ⟨f, "", "", false, [(true, f)], [("x", Fwd.same)], Post.id⟩
+    let row : Row := ⟨f, "", "", false, [(true, f)], [("x", Fwd.same)], [], Post.id⟩
     let o := dispatch Generated.npUnsupported Generated.npHandled c06Kernel (fun p => PyVal.qty ("?" ++ p) "u")
       (fun r => r) (fun _ => "handler") (fun _ => row) (foreign == "1") f [("x", PyVal.qty "x" "u")]
     match o with
@@ -62,9 +67,9 @@ def opsC06 : Handler := fun st fields =>
     | .noKernel => some (st, "ok\tnokernel")
     | .value u r => some (st, s!"ok\t{if u == "handler" then "handler" else "kernel"}\t{r}")
   | ["c06.defects", f, v, s] =>
-    match c06FindRow f v s with
-    | some row => some (st, s!"ok\t{",".intercalate (defects row)}")
-    | none => some (st, "norow")
+    match c06FindRow f v s, Generated.handlerStatics.find? (·.implements == f) with
+    | some row, some h => some (st, s!"ok\t{",".intercalate (defects row ++ provenanceDefects h row)}")
+    | _, _ => some (st, "norow")
   | ["c06.static", f] =>
     match Generated.handlerStatics.find? (·.implements == f) with
     | some h => some (st, s!"ok\t{",".intercalate (staticDefects h)}")
